@@ -1,8 +1,8 @@
 (* C12 — services and routes can change while requests are being served.
    (partial: the lock / access table comes from the translator; Go's memory model and the
    sync.RWMutex implementation are assumed; the behavioural half rests on the stress run) *)
-From Model Require Import Str Sexp Http Template Table Curly DetectRoute Jsr311 Router Conc.
-From Proofs Require Import ConcProofs FrameProofs.
+From Model Require Import Str Sexp Http Template Table Curly DetectRoute Jsr311 Router Conc Linear.
+From Proofs Require Import ConcProofs FrameProofs LinearProofs.
 From Coq Require Import List String. Import ListNotations.
 Open Scope string_scope.
 
@@ -61,3 +61,52 @@ Example C12_example :
   check_path hempty [Acq WS R; Rd LWebServices "a"; Rd LRoutes "curly.go:49"; Rel WS R] = false /\
   check_path hempty [Acq RT W; Acq WS R; Rel WS R; Rel RT W] = false.
 Proof. repeat split; reflexivity. Qed.
+
+(* Linearisation: every request is answered according to a registration state that existed at
+   some moment during that request.  Model/Linear.v: requests (RLock; read the service list; let
+   the router find the claiming service and read its routes; RUnlock) interleaved, one atomic
+   step at a time under ANY schedule, with any number of mutator threads performing Add /
+   Remove (under the write lock) and Route / RemoveRoute (replacing a service's routes, no
+   container lock).  A finished request carries its answer and the ghost [lin]: the global
+   service list at its own step "read the routes of the claiming service" — a state that
+   existed during the request.  The answer is SelectRoute's answer in exactly that state, for
+   both routers.  (The proof needs the read lock twice: roots cannot change while a snapshot is
+   held; and the frame theorem: routes of other services changing meanwhile do not matter.) *)
+Definition C12_linearisation_statement : Prop :=
+  forall (O : oracles) (rtr : router) (wss : list service) (ths : list thread) (sched : list nat)
+         (req : request) (ans : (service * route) + rerr) (lin : list service),
+    forallb fresh_thread ths = true ->
+    In (TReq req (QDone ans lin)) (snd (srun O rtr sched ({| g_svcs := wss; g_cw := false; g_cr := 0 |}, ths))) ->
+    ans = select_route O {| t_router := rtr; t_services := lin |} req.
+Theorem C12_linearisation : C12_linearisation_statement.
+Proof. exact linearisable. Qed.
+Print Assumptions C12_linearisation.
+
+(* ... and while a mutator holds the write lock no request holds a snapshot *)
+Definition C12_exclusion_statement : Prop :=
+  forall (O : oracles) (rtr : router) (wss : list service) (ths : list thread) (sched : list nat),
+    forallb fresh_thread ths = true ->
+    let st := srun O rtr sched ({| g_svcs := wss; g_cw := false; g_cr := 0 |}, ths) in
+    total holds_write (snd st) <= 1 /\ (total holds_write (snd st) = 1 -> total holds_read (snd st) = 0).
+Theorem C12_exclusion : C12_exclusion_statement.
+Proof. exact no_reader_while_writing. Qed.
+Print Assumptions C12_exclusion.
+
+(* a concrete schedule: a request to /a/x is interleaved with RemoveRoute on its own service
+   (after its routes were read: still served) and with Remove of the service; a second request
+   starts after the removal and is answered 404; the writer is blocked while the first holds
+   the read lock *)
+Example C12_linearisation_example :
+  let O := {| o_lower := lower_ascii; o_rx := fun _ _ => false; o_rxfull := fun _ _ => false |} in
+  let L s := list_ascii_of_string s in
+  let r1 := {| r_id := 1%Z; r_method := L "GET"; r_rel := L "/x"; r_consumes := []; r_produces := [];
+               r_conds := []; r_noct := []; r_enc := None |} in
+  let w := {| s_root := L "/a"; s_routes := [r1] |} in
+  let rq := {| rq_method := L "GET"; rq_path := L "/a/x"; rq_headers := []; rq_clen := 0%Z |} in
+  let ths := [TReq rq QStart; TMut None [OSetRoutes (L "/a") []; ORemove (L "/a")]; TReq rq QStart] in
+  let final := srun O Curly [0; 0; 0; 1; 1; 0; 1; 1; 2; 2; 2; 2]%nat ({| g_svcs := [w]; g_cw := false; g_cr := 0 |}, ths) in
+  match snd final with
+  | [TReq _ (QDone (inl (w1, r)) lin1); TMut None []; TReq _ (QDone (inr E404) [])] => lin1 = [w] /\ r = r1 /\ w1 = w
+  | _ => False
+  end.
+Proof. vm_compute. repeat split; reflexivity. Qed.
